@@ -260,6 +260,8 @@ class S:
             for _ in range(n):
                 self.ops.append("a %d %d %d %d" % (self.nxt, self.term, size, self._sd()))
                 self.nxt += 1
+                if r.random() < 0.3:
+                    self.ops.append("last")      # also right after a roll-over, while the new file is still empty
             return
         self.nxt += n
 
@@ -307,6 +309,14 @@ class S:
 
 def gen_store(rng, tier, mode):
     cases = []
+    # directed: the term changes inside a file and the record that fills the file arrives by a single append; the last
+    # index and term are asked for after every append (the new file is empty right after the roll-over) and after a reopen
+    for geom, fill in (((4, 64), 44), ((3, 100), 60)):
+        ops = ["open geom=%d,%d" % geom, "b 1 1 %d 5 0" % (fill - 6)]
+        for j in range(fill - 5, fill + 4):
+            ops += ["a %d 2 5 %d" % (j, 1000 + j), "last"]
+        ops += ["reopen", "last", "get 0 100000", "cat"]
+        cases.append(Case("rollover-single-%d_%d" % geom, ops, True, "boundary"))
     big = tier == "thorough"
     geoms = [(4, 64), (4, 64), (3, 100), (8, 128), (5, 64), None]
     for i in range((500 if big else 70)):
